@@ -53,6 +53,9 @@ pub use crate::walk::{
     WalkParallel, WalkState,
 };
 
+#[cfg(feature = "verif-hooks")]
+pub use crate::walk::verif;
+
 mod default_types;
 mod dir;
 pub mod gitignore;
